@@ -75,6 +75,14 @@ func runTransformCase(c *trCase, dir string, variant int) (string, string) {
 			switch st.Op.Dst {
 			case "same":
 				err = carv2.ExtractV1File(cur, cur)
+			case "alias": // the same file under another spelling of its path
+				err = carv2.ExtractV1File(cur, filepath.Dir(cur)+string(os.PathSeparator)+"."+string(os.PathSeparator)+filepath.Base(cur))
+			case "symlink": // ... and through a symbolic link
+				ln := filepath.Join(dir, "cur-link.car")
+				os.Remove(ln)
+				os.Symlink(cur, ln)
+				err = carv2.ExtractV1File(cur, ln)
+				os.Remove(ln)
 			default:
 				dst := filepath.Join(dir, "extracted.car")
 				os.Remove(dst)
